@@ -637,6 +637,9 @@ func rulePublish(c *Ctx) {
 								bad = "a sync.Map." + op + " on server state"
 							}
 						case *ssa.Lookup:
+							if mt, ok := x.X.Type().Underlying().(*types.Map); ok && perDocumentCounter(mt) {
+								continue // the version guard itself: a superseded analysis ends without publishing
+							}
 							if ld, ok := x.X.(*ssa.UnOp); ok {
 								if field, _, ok := rootSharedField(ld.X); ok {
 									bad = "a lookup in " + field
